@@ -39,6 +39,23 @@ Wave-5 additions (same engine, same oracle):
   * partial tracing: some array arguments stay CONCRETE while the others are traced
     (closed over under eval_shape / jit, in_axes None under vmap, non-differentiated under grad,
     and vmap / grad called directly on concrete arrays).
+
+Wave-6 additions (same engine, same oracle plus one comparison):
+  * array-type alphabet: the array type of an annotation is jax.Array, a TypeVar (unbound, bound to
+    jax.Array, a second one bound to jax.Array, constrained to (jax.Array, np.ndarray)) or a union
+    (typing.Union / PEP 604) of jax.Array and np.ndarray; the SAME TypeVar on two parameters, on a
+    parameter and the return annotation, different TypeVars, TypeVar next to plain jax.Array; under
+    every partially traced call (one call then mixes concrete arrays and tracers of several classes);
+  * dtype-category alphabet {Float, Int} per annotated position, inputs with every dtype assignment;
+  * ALIASED inputs: one and the same array object / container object passed for two (three)
+    parameters, and an argument returned unchanged as the result, for signatures whose annotations
+    are equal, differ in dtype category, in dim string, and PyTree annotations that share (or do not
+    share) a structure name with different leaf types.  Tracing does not preserve object identity
+    (every argument is rebuilt from fresh tracers; only untraced arguments keep it), so the verdict of
+    the eager call must not depend on it: the eager reference of such a case is computed on DISTINCT,
+    freshly built objects and again on the aliased objects, and the two must agree (kind "aliasing");
+    traced calls receive the aliased objects too (the same placeholder / concrete array twice, and,
+    option share, the same tracer twice from inside an enclosing trace).
 """
 from __future__ import annotations
 
@@ -84,6 +101,13 @@ S_F = [(), (1,), (2,), (3,), (1, 2), (2, 2), (3, 2)]
 S_F4 = [(1,), (2,), (2, 2), (3, 2)]
 STATIC_KINDS = ("I", "C")
 
+# array types of an annotation (resolved in _env, after jax is imported).  Two positions with the same name use the SAME object
+# (the same TypeVar).  "Arr" = jax.Array is the default and is not rendered in keys.
+AT_ALL = ["Arr", "TU", "TB", "TB2", "TC", "U", "U604"]
+AT_PAIRS_QUICK = [("TB", "TB"), ("TC", "TC"), ("TU", "TU"), ("U", "U"), ("TB", "TB2"), ("TB", "Arr"), ("TC", "TB")]
+CATS = ["Float", "Int"]
+DTS = {"Float": "f", "Int": "i"}
+
 NT2 = collections.namedtuple("NT2", ["a", "b"])
 NT3 = collections.namedtuple("NT3", ["a", "b", "c"])
 
@@ -125,12 +149,21 @@ def order_trees(tier):
     return out, dicts
 
 
-def _A(d):
-    return ["A", d]
+def _A(d, **o):
+    """Array parameter Float[jax.Array, d]; options at= (array type name, see AT_ALL) and cat= (dtype category)."""
+    o = {key: val for key, val in sorted(o.items()) if (key, val) not in (("at", "Arr"), ("cat", "Float"))}
+    return ["A", d] + ([o] if o else [])
 
 
-def _P(d, name):
-    return ["P", d, name]
+def _P(d, name, **o):
+    """PyTree[Float[jax.Array, d], name] (name None: no structure name); the options apply to the leaf type."""
+    o = {key: val for key, val in sorted(o.items()) if (key, val) not in (("at", "Arr"), ("cat", "Float"))}
+    return ["P", d, name] + ([o] if o else [])
+
+
+def p_opts(p):
+    n = {"A": 2, "P": 3}.get(p[0])
+    return p[n] if n is not None and len(p) > n else {}
 
 
 def _trees(leaf_shapes, nested):
@@ -152,8 +185,22 @@ def families(tier):
     L2, L3, L22, L32 = ["A", [2]], ["A", [3]], ["A", [2, 2]], ["A", [3, 2]]
     D2 = D3[:2]
 
-    def fam(name, sigs, arr, RS, tr, trees=None, tbf="off", ints=True, partial=False, statics=()):
-        fams.append(dict(name=name, sigs=sigs, arr=arr, RS=RS, tr=tr, trees=trees or [], tbf=tbf, ints=ints, partial=partial, statics=list(statics)))
+    def fam(name, sigs, arr, RS, tr, trees=None, tbf="off", ints=True, partial=False, statics=(), alias=False, dts="f"):
+        fams.append(dict(name=name, sigs=sigs, arr=arr, RS=RS, tr=tr, trees=trees or [], tbf=tbf, ints=ints, partial=partial, statics=list(statics), alias=alias, dts=dts))
+
+    def wrap(w, leaf, j):
+        """Parameter j of an alias family: the leaf (category, dims, array type) as a bare array or under PyTree with a structure name."""
+        cat, d, at = leaf
+        kind = w[j]
+        return _A(d, cat=cat, at=at) if kind == "A" else _P(d, {"T": "T", "S": "S", "U": None}[kind], cat=cat, at=at)
+
+    def alias_sigs(wrappers, leaf1s, leaf0=("Float", "a", "Arr")):
+        """k = 2: the first parameter has leaf0; the second every leaf of leaf1s; under every wrapper pair."""
+        return [((wrap(w, leaf0, 0), wrap(w, l1, 1)), None) for w in wrappers for l1 in leaf1s]
+
+    def alias_ret_sigs(wrappers, leaf1s, leaf0=("Float", "a", "Arr")):
+        """k = 1: parameter with leaf0, RETURN annotation with every leaf of leaf1s (the body returns the argument itself / a copy)."""
+        return [((wrap(w, leaf0, 0),), wrap(w, l1, 1)) for w in wrappers for l1 in leaf1s]
 
     QV, T2 = _P("*?v", "T"), _P("_ a", "T")
     otrees, odicts = order_trees(tier)
@@ -188,6 +235,27 @@ def families(tier):
         fam("static2", [((_A(d), I), r) for d in ["{x1}", "a {x1}", "{x1}+1", "{x1}*a"] for r in (None, "{x1}")] + [((_A(d), C), r) for d in ["{x1.size}", "a {x1.size}"] for r in (None, "{x1.size}")],
             S_F, ["like0", (2,)], T_ALL, statics=[1, 2, 3])
         fam("static3", [((_A("a"), I, _A(d)), None) for d in ["{x1}", "{x1} a", "{x0.ndim+x1}"]] + [((I, _A("{x0}"), _A("{x0} {x1.ndim}")), None)], S4, RS2, T_ALL, ints=False, statics=[1, 2])
+        # array-type alphabet: every ordered pair over AT5, plus the pairs that involve the second bound TypeVar / the PEP 604 union;
+        # return unannotated / annotated like x0 / like x1
+        AT5 = ["Arr", "TU", "TB", "TC", "U"]
+        at_pairs = [(x, y) for x in AT5 for y in AT5] + [("TB", "TB2"), ("TB2", "TB"), ("U604", "U604"), ("U604", "TB"), ("U", "U604")]
+        fam("tvar2", [((_A("a", at=x), _A("a", at=y)), r) for x, y in at_pairs for r in (None, _A("a", at=x), _A("a", at=y))], S2, RS2, T_BASIC, ints=False, partial=True, alias=True)
+        fam("tvar2comp", [((_A("a", at=x), _A("a", at=y)), _A("a", at=x)) for x, y in AT_PAIRS_QUICK], S2, RS2, T_COMP, partial=True, alias=True)
+        fam("tvar2cat", [((_A("a", at=x), _A(d, at=y, cat="Int")), None) for x, y in AT_PAIRS_QUICK for d in ("a", "b a") if d == "a" or x == y], S2, [()], T_BASIC + ["jit.vmap"], partial=True, alias=True, dts="fi")
+        fam("tvar3", [((_A("a", at=x), _A("a", at=y), _A("a", at=z)), None) for x, y, z in [("TB", "TB", "TB"), ("TB", "Arr", "TB"), ("TC", "TB", "TC"), ("U", "TU", "TU")]],
+            S2, [()], T_BASIC, ints=False, partial=True, alias=True)
+        fam("tvar_tree", [((_P("a", "T", at=x), _P("a", "T", at=y)), r) for x, y in AT_PAIRS_QUICK for r in (None, _P("a", "T", at=x))], [], ["arg0", "copy0", ()], T_BASIC + ["jit.vmap"],
+            trees=[L2, ["T", [L2, L2]], ["D", [["p", L2], ["q", L3]]]], ints=False, partial=True, alias=True)
+        # aliased arguments: (the same object | equal distinct objects | different values) x annotation pairs
+        leaf1s = [("Float", "a", "Arr"), ("Int", "a", "Arr"), ("Float", "a b", "Arr"), ("Float", "a+1", "Arr"), ("Float", "*v", "Arr"), ("Float", "a", "TB")]
+        atrees = [L2, L22, ["T", [L2, L2]], ["D", [["q", L2], ["p", L2]]]]
+        fam("alias2", alias_sigs(["AA", "TT"], leaf1s) + alias_sigs(["TS", "TA", "AT", "UU"], leaf1s[:3]), S2, [()], T_BASIC, trees=atrees, partial=True, alias=True, dts="fi")
+        fam("alias2comp", alias_sigs(["AA", "TT"], leaf1s[:3]), S2, [()], T_COMP, trees=atrees[:3], alias=True, dts="fi")
+        fam("alias_ret", alias_ret_sigs(["AA", "TT", "TS", "UU", "TA", "AT"], leaf1s), S2, ["arg0", "copy0"], ["eval_shape", "jit", "make_jaxpr", "vmap", "jit.vmap", "vmap.jit"], trees=atrees,
+            partial=True, alias=True, dts="fi")
+        # k = 3: two untraced arguments of one call can stay the same object (grad argnums=[0], vmap in_axes (0, None, None))
+        fam("alias3", [((_A("*v"), _A("*v", **o1), _A("*v", **o2)), None) for o1, o2 in [({}, {"cat": "Int"}), ({}, {}), ({"at": "TB"}, {"at": "TB"})]]
+            + [((_P("*v", "T"), _P("*v", "T"), _P("*v", "T", cat="Int")), None)], [(2, 2)], [()], T_BASIC, trees=[L22], partial=True, alias=True, dts="fi")
     else:
         fam("k1", sig([D6 + ["*v"]], [None, "a", "*v a", "a+1"]), S, ["like0", (2,)], T_ALL)
         fam("k2", sig([D2, D2], [None]), S3, RS2, T_ALL)
@@ -203,6 +271,11 @@ def families(tier):
         fam("fstr_ret", sig([["*v"], ["a"]], ["{x0.ndim}", "{len(x1)}"]) + sig([["*v"]], ["{x0.ndim}"]), S_F4, ["like0", (1,)], T_BASIC, ints=False, partial=True)
         fam("static2", [((_A(d), I), r) for d in ["{x1}", "a {x1}"] for r in (None, "{x1}")] + [((_A("{x1.size}"), C), None)], S_F4, ["like0", (2,)], T_ALL, ints=False, statics=[1, 2, 3])
         fam("static3", [((_A("a"), I, _A("{x1} a")), None)], S3, RS2, T_BASIC + ["jit.vmap"], ints=False, statics=[1, 2])
+        fam("tvar2", [((_A("a", at=x), _A("a", at=y)), _A("a", at=x)) for x, y in AT_PAIRS_QUICK], S2, RS2, T_BASIC, ints=False, partial=True, alias=True)
+        leaf1s = [("Float", "a", "Arr"), ("Int", "a", "Arr"), ("Float", "a b", "Arr")]
+        atrees = [L2, ["T", [L2, L2]]]
+        fam("alias2", alias_sigs(["AA"], leaf1s) + alias_sigs(["TT"], leaf1s[:2]), S2, [()], T_BASIC, trees=atrees, partial=True, alias=True, dts="fi")
+        fam("alias_ret", alias_ret_sigs(["AA", "TT"], leaf1s), S2, ["arg0", "copy0"], ["eval_shape", "jit", "vmap", "jit.vmap"], trees=atrees, partial=True, alias=True, dts="fi")
     return fams
 
 
@@ -354,12 +427,71 @@ def dtype_configs(k, ret, rs, rs_list, ints=True, int_positions=None):
 PART_SIZE = 1500  # functions with more planned evaluations than this are split by input index into parts (load balancing only)
 
 
+def alias_options(vals):
+    """Every way of passing ONE object for several parameters: the set partitions of the positions into blocks of equal values
+    (as lists of the blocks with >= 2 members; [] = all objects distinct), in a fixed order."""
+    k = len(vals)
+    keys = [json.dumps(v) for v in vals]
+    out = []
+
+    def rec(j, blocks):
+        if j == k:
+            out.append([list(b) for b in blocks if len(b) > 1])
+            return
+        rec(j + 1, blocks + [[j]])
+        for i, b in enumerate(blocks):
+            if keys[b[0]] == keys[j]:
+                rec(j + 1, blocks[:i] + [b + [j]] + blocks[i + 1 :])
+
+    rec(0, [])
+    return out
+
+
+def alias_on(seen, alias):
+    """The aliasing that the per-example values admit: every block of alias split into sub-blocks of equal per-example values."""
+    out = []
+    for g in alias:
+        by = {}
+        for j in g:
+            by.setdefault(json.dumps(seen[j]), []).append(j)
+        out += [b for b in by.values() if len(b) > 1]
+    return sorted(out)
+
+
+def is_arg_rs(rs):
+    """'arg<j>': the body returns its argument j unchanged (the same object); 'copy<j>': a freshly built equal value."""
+    return isinstance(rs, str) and rs != "like0"
+
+
+def enumerate_alias_cases(fam, spec):
+    """Families with alias=True: every value and every dtype (all leaves of one argument alike) per parameter, every aliasing."""
+    tc, params, ret = spec
+    cands = []
+    for p in params:
+        base = [["A", list(s)] for s in fam["arr"]] if p[0] == "A" else fam["trees"]
+        cands.append([v_map(v, lambda l, dt=dt: ["A", list(l[1]), dt]) for v in base for dt in fam["dts"]])
+    rs_list = fam["RS"] if ret is not None else [()]
+    for vals in itertools.product(*cands):
+        vals = list(vals)
+        all_float = all(l[2] == "f" for v in vals for l in v_leaves(v))
+        for rs in rs_list:
+            for rdt in ("fi" if ret is not None and fam["ints"] and not is_arg_rs(rs) else "f"):
+                for alias in alias_options(vals):
+                    trs = transforms_for(vals, fam["tr"], all_float and rdt == "f" and rs == (), fam["partial"])
+                    if alias:  # the same TRACER twice: the decorated function is called from inside an enclosing trace
+                        trs += [([n, {"share": 1}], vals) for n in ("eval_shape", "jit") if n in fam["tr"]]
+                    yield vals, (rs if isinstance(rs, str) else list(rs)), rdt, alias, trs
+
+
 def enumerate_cases(fam, spec, part=0, nparts=1):
-    """Yield (vals, rs, rdt, [(transform, seen_vals)...]) for one function (inputs with index = part mod nparts)."""
+    """Yield (vals, rs, rdt, alias, [(transform, seen_vals)...]) for one function (inputs with index = part mod nparts)."""
     if nparts > 1:
         for i, case in enumerate(enumerate_cases(fam, spec)):
             if i % nparts == part:
                 yield case
+        return
+    if fam.get("alias"):
+        yield from enumerate_alias_cases(fam, spec)
         return
     tc, params, ret = spec
     k = len(params)
@@ -378,7 +510,7 @@ def enumerate_cases(fam, spec, part=0, nparts=1):
             for ipos, rdt in dtype_configs(k, ret, rs, rs_list, fam.get("ints", True), apos):
                 vals = [v_with_dtypes(v, ipos == j) for j, v in enumerate(shp)]
                 grad_ok = ipos is None and rdt == "f" and rs == ()
-                yield vals, (rs if rs == "like0" else list(rs)), rdt, transforms_for(vals, fam["tr"], grad_ok, fam.get("partial", False))
+                yield vals, (rs if rs == "like0" else list(rs)), rdt, [], transforms_for(vals, fam["tr"], grad_ok, fam.get("partial", False))
 
 
 # ------------------------------------------------------------------ rendering
@@ -388,13 +520,15 @@ def sig_str(spec):
     tc, params, ret = spec
 
     def one(p):
+        o = p_opts(p)
+        pre = (o.get("cat", "") + ("~" + o["at"] if "at" in o else "")) if o else ""  # nothing for Float[jax.Array, .]: earlier keys are unchanged
         if p[0] == "A":
-            return f"[{p[1]}]"
+            return f"{pre}[{p[1]}]"
         if p[0] == "I":
             return "int"
         if p[0] == "C":
             return "Cfg"
-        return f"PyTree[{p[1]}|{p[2]}]"
+        return f"PyTree[{pre}{'!' if pre else ''}{p[1]}|{p[2]}]"
 
     ps = ",".join(one(p) for p in params)
     return f"{tc}:({ps})->{'-' if ret is None else one(ret) if isinstance(ret, list) else '[' + ret + ']'}"
@@ -431,18 +565,30 @@ def tr_parts(tr):
     return rest, opt
 
 
+def opt_conc(tr):
+    """Is this a partially traced call (some array argument concrete)?"""
+    o = tr_parts(tr)[1]
+    return bool(o.get("conc") or o.get("argnums"))
+
+
 def is_tree_rs(rs):
-    return isinstance(rs, (list, tuple)) and len(rs) > 0 and isinstance(rs[0], str) and rs != "like0"
+    return isinstance(rs, (list, tuple)) and len(rs) > 0 and isinstance(rs[0], str)
 
 
 def rs_str(rs, rdt):
     if is_tree_rs(rs):
         return ("i" if rdt == "i" else "f") + val_str(v_map(rs, lambda l: ["A", l[1], "f"]))
+    if is_arg_rs(rs):
+        return f"<{rs}>"
     return ("i" if rdt == "i" else "f") + ("<like-x0>" if rs == "like0" else "(" + ",".join(map(str, rs)) + ")")
 
 
-def case_key(kind, spec, vals, rs, rdt, tr):
-    return f"C17:{kind}:{tr_str(tr)}:{sig_str(spec)}:{';'.join(val_str(v) for v in vals)}:ret{rs_str(rs, rdt)}"
+def alias_str(alias):
+    return "".join(":same(" + "=".join(f"x{j}" for j in g) + ")" for g in alias)
+
+
+def case_key(kind, spec, vals, rs, rdt, tr, alias=()):
+    return f"C17:{kind}:{tr_str(tr)}:{sig_str(spec)}:{';'.join(val_str(v) for v in vals)}{alias_str(alias)}:ret{rs_str(rs, rdt)}"
 
 
 # ------------------------------------------------------------------ execution (worker side)
@@ -478,12 +624,30 @@ def _env():
         for l in leaves:
             tot = tot + jnp.sum(l)
         dt = CELL["dt"]
+        if is_arg_rs(CELL["rs"]):  # 'arg<j>': the argument object itself; 'copy<j>': an equal value built here from fresh arrays and fresh containers
+            x = xs[int(CELL["rs"].lstrip("argcopy"))]
+            return x if CELL["rs"].startswith("arg") else jax.tree_util.tree_map(lambda l: l + (0 * tot).astype(l.dtype), x)
         if is_tree_rs(CELL["rs"]):  # a container built HERE, dicts in the stated insertion order
             return v_build(CELL["rs"], lambda l: jnp.zeros(tuple(l[1]), dt) + (0 * tot).astype(dt))
         rs = leaves[0].shape if CELL["rs"] == "like0" else CELL["rs"]
         return jnp.zeros(rs, dt) + (0 * tot).astype(dt)
 
+    import typing
+    import numpy as np
+
+    ats = {
+        "Arr": jax.Array,
+        "TU": typing.TypeVar("TU"),
+        "TB": typing.TypeVar("TB", bound=jax.Array),
+        "TB2": typing.TypeVar("TB2", bound=jax.Array),
+        "TC": typing.TypeVar("TC", jax.Array, np.ndarray),
+        "U": typing.Union[jax.Array, np.ndarray],
+        "U604": jax.Array | np.ndarray,
+    }
+    if sorted(ats) != sorted(AT_ALL):
+        raise common.HarnessError("array-type table out of step with AT_ALL")
     _ENV.update(
+        ats=ats,
         jax=jax,
         jnp=jnp,
         jt=jaxtyping,
@@ -503,13 +667,14 @@ def build_fn(spec):
     k = len(params)
 
     def ann(p):
-        if p[0] == "A":
-            return jt.Float[jax.Array, p[1]]
         if p[0] == "I":
             return int
         if p[0] == "C":
             return Cfg
-        leaf = jt.Float[jax.Array, p[1]]
+        o = p_opts(p)
+        leaf = getattr(jt, o.get("cat", "Float"))[E["ats"][o.get("at", "Arr")], p[1]]
+        if p[0] == "A":
+            return leaf
         return jt.PyTree[leaf] if p[2] is None else jt.PyTree[leaf, p[2]]
 
     ns = {"_BODY": E["body"], "__name__": "vf_c17_generated"}
@@ -523,10 +688,12 @@ def build_fn(spec):
     return jt.jaxtyped(typechecker=E["tcs"][tc])(f)
 
 
-def _concrete_leaf(l, fill):
+def _concrete_leaf(l, fill, slot=None):
+    """A concrete array.  slot None: one cached object per (shape, dtype, filling) - equal leaves are then the SAME object wherever they
+    occur; slot n: the n-th leaf built for one call gets its own object, so that no two leaves of a call are the same object."""
     E = _env()
     jnp = E["jnp"]
-    key = (tuple(l[1]), l[2], fill)
+    key = (tuple(l[1]), l[2], fill, slot)
     a = E["arrays"].get(key)
     if a is None:
         shape, dt = tuple(l[1]), E["dts"][l[2]]
@@ -564,7 +731,7 @@ def v_build(v, leaf_fn):
 
 
 def _rs(rs):
-    return rs if rs == "like0" or is_tree_rs(rs) else tuple(rs)
+    return rs if isinstance(rs, str) or is_tree_rs(rs) else tuple(rs)
 
 
 def _outcome(thunk):
@@ -594,18 +761,41 @@ def _outcome(thunk):
     return r, CELL["n"], leak, CELL["seen"]
 
 
-def run_eager(F, vals, rs, rdt):
+def _slotted(fill):
+    """leaf_fn handing out a different concrete array object per leaf (see _concrete_leaf)."""
+    count = itertools.count()
+    return lambda l: _concrete_leaf(l, fill, next(count))
+
+
+def _share(objs, alias, among=None):
+    """One object for all positions of a block (restricted to the positions in `among`)."""
+    for g in alias:
+        g = [j for j in g if among is None or j in among]
+        for j in g[1:]:
+            objs[j] = objs[g[0]]
+    return objs
+
+
+def run_eager(F, vals, rs, rdt, alias=(), fresh=False):
+    """[[verdict, body runs] per filling].  fresh: every leaf and every container of the call is a distinct object.  With aliasing
+    (alias blocks, or rs 'arg<j>' = the result IS argument j) the list continues with the three fillings of the aliased call; its first
+    three entries are then the call on all-distinct objects (rs 'copy<j>' instead of 'arg<j>')."""
     E = _env()
     out = []
-    for fill in FILLS:
-        args = [v_build(v, lambda l: _concrete_leaf(l, fill)) for v in vals]
-        CELL["rs"], CELL["dt"] = _rs(rs), E["dts"][rdt]
-        r, n, leak, seen = _outcome(lambda: F(*args))
-        out.append([r, n])
+    variants = [((), "copy" + rs[3:] if is_arg_rs(rs) and rs.startswith("arg") else rs)]
+    if alias or variants[0][1] != rs:
+        variants.append((alias, rs))
+    for al, rs_v in variants:
+        for fill in FILLS:
+            leaf_fn = _slotted(fill) if fresh else (lambda l: _concrete_leaf(l, fill))
+            args = _share([v_build(v, leaf_fn) for v in vals], al)
+            CELL["rs"], CELL["dt"] = _rs(rs_v), E["dts"][rdt]
+            r, n, leak, seen = _outcome(lambda: F(*args))
+            out.append([r, n])
     return out
 
 
-def run_traced(F, vals, rs, rdt, tr):
+def run_traced(F, vals, rs, rdt, tr, alias=(), fresh=False):
     E = _env()
     jax = E["jax"]
     k = len(vals)
@@ -620,10 +810,13 @@ def run_traced(F, vals, rs, rdt, tr):
     held = {}
     for j in spos:
         held[j] = v_build(vals[j], None)
+    leaf_fn = _slotted("arange") if fresh else (lambda l: _concrete_leaf(l, "arange"))
     for j in conc:
-        held[j] = v_build(vals[j], lambda l: _concrete_leaf(l, "arange"))
+        held[j] = v_build(vals[j], leaf_fn)
+    _share(held, alias, among=conc)  # aliased concrete arguments are ONE object
     dyn = [j for j in range(k) if j not in held]
-    structs = [v_build(vals[j], lambda l: jax.ShapeDtypeStruct(tuple(l[1]), E["dts"][l[2]])) for j in dyn]
+    structs = _share({j: v_build(vals[j], lambda l: jax.ShapeDtypeStruct(tuple(l[1]), E["dts"][l[2]])) for j in dyn}, alias, among=dyn)
+    structs = [structs[j] for j in dyn]  # aliased traced arguments: ONE placeholder object passed twice
 
     ns = {"_F": F}
     ps = ", ".join(f"x{i}" for i in range(k))
@@ -689,6 +882,8 @@ def run_traced(F, vals, rs, rdt, tr):
             full[j] = x
         for j, x in held.items():
             full[j] = x
+        if opt.get("share"):  # the decorated function (or its jit) is called with ONE tracer of the enclosing trace at the aliased positions
+            _share(full, alias, among=dyn)
         return g(*full)
 
     CELL["rs"], CELL["dt"] = _rs(rs), E["dts"][rdt]
@@ -705,8 +900,10 @@ def judge(ref, traced):
     """-> list of violation kinds ([] = agrees).  ref = [[verdict, runs] x 3 fillings]."""
     r, n, leak, _ = traced
     kinds = []
-    if any(x != ref[0] for x in ref[1:]):
+    if any(x != ref[0] for x in ref[1:3]):
         kinds.append("filling")
+    if any(x != ref[0] for x in ref[3:]):  # the eager call on aliased objects vs on distinct objects of the same types, shapes and dtypes
+        kinds.append("aliasing")
     er, en = ref[0]
     if leak:
         kinds.append("tracer-error")
@@ -714,7 +911,7 @@ def judge(ref, traced):
         kinds.append("verdict")
     elif r != er:
         kinds.append("class")
-    if not kinds or kinds == ["filling"]:
+    if all(x in ("filling", "aliasing") for x in kinds):
         if (r == "ok" and n != 1) or n > 1 or (r == er and n != en):
             kinds.append("body-count")
     return kinds
@@ -733,10 +930,10 @@ def _run_job(job):
     fam_by_name = {f["name"]: f for f in families(job["tier"])}
     fns_by_name = {n: family_functions(f) for n, f in fam_by_name.items()}
     st = dict(functions=0, inputs=0, evaluations=0, eager_evaluations=0, nontrivial=0, traced_ok=0, traced_reject=0, reject_before_body=0,
-              reject_after_body=0, vmap_cases=0, vmap_verdict_differs_from_outer=0, eager_other_exception=0, violations_total=0, by_transform={}, by_class={},
+              reject_after_body=0, aliased_inputs=0, aliased_evaluations=0, vmap_cases=0, vmap_verdict_differs_from_outer=0, eager_other_exception=0, violations_total=0, by_transform={}, by_class={},
               per_family={})
     viols, samples = [], []
-    sample_slots = {"vmap_accepts_outer_rejects": None, "vmap_rejects_outer_accepts": None, "accepted": None, "grad_reject": None, "tree": None}
+    sample_slots = {"aliased": None, "typevar": None, "vmap_accepts_outer_rejects": None, "vmap_rejects_outer_accepts": None, "accepted": None, "grad_reject": None, "tree": None}
     for fname, idx, part, nparts in job["items"]:
         fam = fam_by_name[fname]
         spec = fns_by_name[fname][idx]
@@ -748,24 +945,28 @@ def _run_job(job):
             pf["functions"] += 1
         memo = {}
 
-        def ref_for(seen, rs, rdt):
-            key = json.dumps([seen, rs, rdt])
+        fresh = bool(fam.get("alias"))
+
+        def ref_for(seen, rs, rdt, alias=()):
+            key = json.dumps([seen, rs, rdt, alias])
             if key not in memo:
-                memo[key] = run_eager(F, seen, rs, rdt)
-                st["eager_evaluations"] += len(FILLS)
+                memo[key] = run_eager(F, seen, rs, rdt, alias, fresh)
+                st["eager_evaluations"] += len(memo[key])
                 for r, n in memo[key]:
                     if r != "ok" and r not in ("jaxtyping.TypeCheckError", "jaxtyping.AnnotationError"):
                         st["eager_other_exception"] += 1
             return memo[key]
 
         annotated_positions = len(spec[1]) + (spec[2] is not None)
-        for vals, rs, rdt, trs in enumerate_cases(fam, spec, part, nparts):
+        for vals, rs, rdt, alias, trs in enumerate_cases(fam, spec, part, nparts):
             st["inputs"] += 1
             pf["inputs"] += 1
             pf["evaluations"] += len(trs)
+            st["aliased_inputs"] += bool(alias)
             for tr, seen in trs:
-                ref = ref_for(seen, rs, rdt)
-                traced = run_traced(F, vals, rs, rdt, tr)
+                ref = ref_for(seen, rs, rdt, alias_on(seen, alias))
+                traced = run_traced(F, vals, rs, rdt, tr, alias, fresh)
+                st["aliased_evaluations"] += len(ref) > len(FILLS)
                 st["evaluations"] += 1
                 r, n, leak, body_seen = traced
                 if n >= 1 and body_seen is not None:
@@ -790,21 +991,27 @@ def _run_job(job):
                     st["nontrivial"] += 1
                 kinds = judge(ref, traced)
                 desc = dict(fn=spec, vals=vals, rs=rs, rdt=rdt, tr=tr, tbf=fam["tbf"])
+                if fresh:
+                    desc.update(alias=alias, fresh=True)
                 if kinds:
                     st["violations_total"] += 1
                     if len(viols) < 25:
                         viols.append(
                             Violation(
-                                key=case_key("+".join(kinds), spec, vals, rs, rdt, tr),
-                                what=f"{sig_str(spec)} args {[val_str(v) for v in vals]} body returns {rs_str(rs, rdt)} under {tr_str(tr)}: traced -> {r} "
+                                key=case_key("+".join(kinds), spec, vals, rs, rdt, tr, alias),
+                                what=f"{sig_str(spec)} args {[val_str(v) for v in vals]}{alias_str(alias)} body returns {rs_str(rs, rdt)} under {tr_str(tr)}: traced -> {r} "
                                 f"(body ran {n}x{', tracer forced to a value' if leak else ''}); eager on the per-example shapes {[val_str(v) for v in seen]} "
-                                f"-> {ref} (zeros/arange/nan)",
+                                f"-> {ref} (zeros/arange/nan" + ("; then the same three on aliased objects" if len(ref) > len(FILLS) else "") + ")",
                                 replay=desc,
                             ).to_json()
                         )
                 else:
                     slot = None
-                    if differs and r == "ok" and sample_slots["vmap_accepts_outer_rejects"] is None:
+                    if alias and opt_conc(tr) and sample_slots["aliased"] is None:
+                        slot = "aliased"
+                    elif r == "ok" and opt_conc(tr) and any(p_opts(p).get("at", "Arr").startswith("T") for p in spec[1]) and sample_slots["typevar"] is None:
+                        slot = "typevar"
+                    elif differs and r == "ok" and sample_slots["vmap_accepts_outer_rejects"] is None:
                         slot = "vmap_accepts_outer_rejects"
                     elif differs and r != "ok" and sample_slots["vmap_rejects_outer_accepts"] is None:
                         slot = "vmap_rejects_outer_accepts"
@@ -815,7 +1022,7 @@ def _run_job(job):
                     elif r == "ok" and annotated_positions >= 2 and sample_slots["accepted"] is None:
                         slot = "accepted"
                     if slot:
-                        sample_slots[slot] = dict(kind=slot, fn=sig_str(spec), args=[val_str(v) for v in vals], body_returns=rs_str(rs, rdt), transform=tr_str(tr),
+                        sample_slots[slot] = dict(kind=slot, fn=sig_str(spec), args=[val_str(v) for v in vals], same_object=alias_str(alias), body_returns=rs_str(rs, rdt), transform=tr_str(tr),
                                                   function_sees=[val_str(v) for v in seen], traced=[r, n], eager=ref)
     samples = [s for s in sample_slots.values() if s]
     return st, viols, samples
@@ -1014,7 +1221,7 @@ def plan(tier):
     out = []
     for fam in families(tier):
         for i, spec in enumerate(family_functions(fam)):
-            counts = [len(trs) for _, _, _, trs in enumerate_cases(fam, spec)]
+            counts = [len(case[-1]) for case in enumerate_cases(fam, spec)]
             nparts = max(1, -(-sum(counts) // PART_SIZE))
             for part in range(nparts):
                 out.append((fam["name"], i, part, nparts, sum(counts[part::nparts])))
@@ -1072,7 +1279,9 @@ def run(ctx):
         "compared with the eager call on the per-example shapes; families are pairwise disjoint (different signatures or different transformations) and each is a plain product, "
         "so evaluations are distinct cases, except family k1_tbf_auto which re-runs a slice of k1 under JAX's default traceback filtering and is not counted as non-trivial; "
         "non-trivial = accepted under tracing by a function with >= 2 annotated positions (cross-position consistency was decided on tracers), or rejected under tracing AFTER the "
-        "body ran (the return value, a tracer produced by the transformation, was checked), or a vmap case whose verdict differs from the verdict on the shapes the caller passed",
+        "body ran (the return value, a tracer produced by the transformation, was checked), or a vmap case whose verdict differs from the verdict on the shapes the caller passed. "
+        "Oracle kinds: verdict / class (traced vs eager), filling (eager verdict depends on element values), aliasing (eager verdict on one object passed twice, or returned unchanged, "
+        "differs from the verdict on distinct objects of the same types, shapes and dtypes), tracer-error, body-count",
         exhaustive=True,
         samples=samples,
         functions=stats["functions"],
@@ -1082,6 +1291,8 @@ def run(ctx):
         traced_rejected=stats["traced_reject"],
         rejected_before_body=stats["reject_before_body"],
         rejected_after_body=stats["reject_after_body"],
+        inputs_with_aliased_arguments=stats["aliased_inputs"],
+        evaluations_whose_eager_reference_ran_on_distinct_and_on_aliased_objects=stats["aliased_evaluations"],
         vmap_cases=stats["vmap_cases"],
         vmap_verdict_differs_from_outer_shapes=stats["vmap_verdict_differs_from_outer"],
         eager_exceptions_other_than_TypeCheckError_AnnotationError=stats["eager_other_exception"],
@@ -1093,7 +1304,7 @@ def run(ctx):
             tier=ctx.tier,
             families={
                 f["name"]: dict(signatures=len(f["sigs"]), typecheckers=TCS, array_shapes=[list(s) for s in f["arr"]], trees=len(f.get("trees", [])), ret_shapes=[s if s == "like0" else list(s) for s in f["RS"]],
-                                transformations=f["tr"], traceback_filtering=f["tbf"], int32_configs=f["ints"], partial_tracing=f["partial"], static_values=f["statics"])
+                                transformations=f["tr"], traceback_filtering=f["tbf"], int32_configs=f["ints"], partial_tracing=f["partial"], static_values=f["statics"], aliased_inputs=f["alias"], input_dtypes=f["dts"] if f["alias"] else "see dtypes")
                 for f in fams
             },
             fstring_axes=dict(over_array_parameters=FSTR, mixed=FSTR_MIXED, over_static_parameters=["{x1}", "{x1.size}", "{x1}+1", "{x1}*a", "{x0.ndim+x1}"], shapes=[list(x) for x in S_F]),
@@ -1107,6 +1318,18 @@ def run(ctx):
             D=D, S=[list(s) for s in S], in_axes="every element of {None,0,1}^k that JAX accepts for the shapes (axis in range, equal mapped sizes, not all None); vmap.vmap: every valid pair",
             dtypes="float32 everywhere | int32 at parameter j (first leaf for PyTrees), j < k (families with int32_configs) | int32 result",
             fillings=FILLS,
+            array_types="families tvar*: the array type of an annotation is one of " + ", ".join(AT_ALL) + " = jax.Array | TypeVar('TU') | TypeVar('TB', bound=jax.Array) | "
+            "TypeVar('TB2', bound=jax.Array) | TypeVar('TC', jax.Array, np.ndarray) | Union[jax.Array, np.ndarray] | jax.Array | np.ndarray; equal names are the same object, "
+            "so the same TypeVar occurs on two (three) parameters and on parameter + return; quick: the ordered pairs " + " ".join(f"({x},{y})" for x, y in AT_PAIRS_QUICK)
+            + " with the return annotated like x0; thorough: every ordered pair, return unannotated / like x0 / like x1, plus Int on the second parameter, k = 3, and PyTree leaves; "
+            "all under every partially traced call (concrete arrays and tracers of different classes in one call)",
+            aliasing="families with aliased_inputs=True: per parameter every value x every dtype in input_dtypes (all leaves of one argument alike); per input every set partition "
+            "of the positions into blocks of equal values, each block passed as ONE object (eagerly: the same array / container; traced: the same ShapeDtypeStruct placeholder "
+            "or the same concrete array; option share: the same tracer of an enclosing eval_shape passed twice to the function / to its jit); in these families every leaf and "
+            "container of the all-distinct call is a separately built object.  alias2 / alias3: first parameter Float[Array,'a'], the others with leaf types differing in dtype "
+            "category (Int), dim string ('a b', thorough also 'a+1', '*v'), array type (thorough: TypeVar), as bare arrays and as PyTree[leaf, name] with the same structure name, "
+            "(thorough) different names, no name, and tree next to bare array.  alias_ret: one parameter, return annotation from the same table, the body returns the argument "
+            "object itself ('arg0') or an equal freshly built value ('copy0'); the eager reference of 'arg0' is the 'copy0' call, and both eager calls must agree",
         ),
     )
     return Result(
@@ -1121,6 +1344,10 @@ def run(ctx):
             "arguments held concrete in a partially traced call are filled with arange (the three-filling comparison is made on the eager reference)",
             "int / Cfg parameters that feed an f-string axis are never traced: an axis that interpolates the VALUE of a traced argument is value-dependent by construction, "
             "the statement says nothing about it (don't-care, not generated)",
+            "object identity of arguments is not part of (type, shape, dtype): the statement makes traced == eager for every way of passing the arguments, and tracing rebuilds "
+            "every traced argument from fresh tracers, so an eager verdict that depended on two arguments being the same object could not equal both traced variants; the "
+            "reference is therefore the eager call on all-distinct objects and the eager call on aliased objects is required to agree with it",
+            "inputs are jax arrays only (the quantifier says 'over jax.Array'): np.ndarray members of unions / constrained TypeVars are never satisfied by an np.ndarray input",
             "functions with more than PART_SIZE planned evaluations are split by input index over several workers; the eager reference is then memoised per part",
         ],
         notes=["traced calls go through jax.eval_shape / jax.make_jaxpr on ShapeDtypeStructs: nothing is compiled; eager calls run real (tiny) computations on CPU"],
@@ -1138,6 +1365,7 @@ def replay(rep):
     _set_tbf(rep.get("tbf", "off"))
     spec = (rep["fn"][0], rep["fn"][1], rep["fn"][2])
     vals, rs, rdt, tr = rep["vals"], rep["rs"], rep["rdt"], rep["tr"]
+    alias, fresh = rep.get("alias", []), rep.get("fresh", False)
     if tr[0] in ("vmap", "jit.vmap", "vmap.jit"):
         seen = unbatch(vals, tr[1])
     elif tr[0] == "vmap.vmap":
@@ -1147,17 +1375,19 @@ def replay(rep):
     if seen is None:
         raise common.HarnessError("replay file holds an in_axes that is invalid for its shapes")
     F = build_fn(spec)
-    ref = run_eager(F, seen, rs, rdt)
-    traced = run_traced(F, vals, rs, rdt, tr)
+    ref = run_eager(F, seen, rs, rdt, alias_on(seen, alias), fresh)
+    traced = run_traced(F, vals, rs, rdt, tr, alias, fresh)
     kinds = judge(ref, traced)
     return dict(
         function=sig_str(spec),
         args=[val_str(v) for v in vals],
+        same_object=alias_str(alias),
         body_returns=rs_str(rs, rdt),
         transformation=tr_str(tr),
         function_sees=[val_str(v) for v in seen],
         traced=dict(verdict=traced[0], body_runs=traced[1], tracer_forced=traced[2]),
-        eager_zeros_arange_nan=ref,
+        eager_zeros_arange_nan=ref[: len(FILLS)],
+        eager_on_aliased_objects=ref[len(FILLS) :],
         kinds=kinds,
         violates=bool(kinds),
     )
